@@ -9,6 +9,8 @@
 #include <chrono>
 #include <signal.h>
 
+extern "C" { size_t __sanitizer_get_current_allocated_bytes(void); size_t __sanitizer_get_heap_size(void); }
+
 namespace hz {
 
 int enum_part = 0, enum_parts = 1;
@@ -249,6 +251,7 @@ int harness_main(int argc, char **argv, PropDef &def)
 		}
 	});
 	st.extra["skipped_after_budget"] = std::to_string(skipped_budget);
+	if (getenv("VERIF_MEMSTAT")) fprintf(stderr, "MEMSTAT evaluations=%llu allocated=%zu heap=%zu hashes=%zu\n", (unsigned long long)st.evaluations, __sanitizer_get_current_allocated_bytes(), __sanitizer_get_heap_size(), st.nontrivial_hashes.size());
 	st.evaluations -= 0;
 	if (!ok && have_fail) {
 		std::string tf = faildir + "/fail.tape";
